@@ -32,6 +32,9 @@ type Config struct {
 	MaxProcs  int             `json:"maxprocs"`
 	MaxViol   int             `json:"max_violations"`
 	ShrinkS   int             `json:"shrink_seconds"`
+	// WallBudgetS bounds the exploration of one worker in real seconds (0: none). It never
+	// decides anything inside a run: it only ends the batch early, and the summary says so.
+	WallBudgetS int `json:"wall_budget_seconds"`
 	// Isolate: every simulated run is executed in a process of its own (a child of this
 	// worker). Used for code that keeps goroutines or channels alive from one call to the
 	// next (a process-wide worker pool): such state cannot cross from one run's synctest
@@ -356,6 +359,11 @@ func TestWorker(t *testing.T) {
 		maxViol = 3
 	}
 	for idx := cfg.Worker; idx < runs; idx += cfg.NWorkers {
+		if cfg.WallBudgetS > 0 && time.Since(start) > time.Duration(cfg.WallBudgetS)*time.Second {
+			sum.Counters["exploration_cut_short_by_wall_clock_budget"] = 1
+			sum.Counters["runs_not_executed_within_wall_clock_budget"] = int64((runs - idx + cfg.NWorkers - 1) / cfg.NWorkers)
+			break
+		}
 		seed := runSeed(&cfg, idx)
 		wantSample := len(sum.Samples) < 3 && (idx/cfg.NWorkers)%29 == 1
 		t0 := time.Now()
